@@ -111,14 +111,68 @@ PROPS["C09"] = dict(
     level_note="Trusted: Lean kernel, factgen shapes, real timers in the tie. Known finding D10b is recorded in known_findings.json.",
 )
 
+STORE_TRUST = ["badger v4: ordered prefix iteration, snapshot reads, atomic commit (modelled as sorted key lists per key family)",
+             "encoding/json; entity content is opaque in the model (canonical JSON string of props and refs), content equality = what the repaired IsEntityEqual decides on the generator's value domain",
+             "internal ids, commit times and dataset ids are inputs of the model (the real run's choices)"]
+STORE_RULE = ("generated histories (4-15 write ops over 2-3 datasets, id pool 5, 3 predicates; batches of 1-5 with in-batch repeats, identical re-posts, "
+              "delete/un-delete flips, equal-length un-delete pairs, single/array refs, multi-dataset transactions, store reopen) against a fresh real hub; ")
+
 PROPS["C01"] = dict(
-    modules=[],
+    modules=["Hub.Props.C01"],
     gens=["store-c01"],
-    rule="",
-    level_text="under construction", level_note="under construction",
+    rule=STORE_RULE + "after every op: paged listings (page sizes 0,1,2,3 following the tokens), scoped / two-dataset / unscoped merged lookups, now and pinned "
+         "to earlier commit instants (±1 ns); non-trivial = at least 3 stored versions and 2 lookups; distinct = distinct histories",
+    trusted=STORE_TRUST,
+    assumptions=["commit times of a dataset strictly increase (write lock + clock)", "merge of partials for unscoped lookups is modelled in the driver (JSON level), not in a theorem"],
+    level_text="Proof: the Go write loop (in-batch map, read snapshot, skip rule, latest pointers, change log, counters) refines the version-history "
+               "specification for every batch (refinement, by induction over the batch with an invariant on the pending transaction); an element is dropped iff "
+               "identical to the version it would replace (no_silent_drop, last_is_written); the stored latest is the last accepted version (stored_is_last); "
+               "the listing contains exactly the last version of every stored id, each once (listing_eq_latest, listing_once). The model is run against the real "
+               "store on generated histories (listing paging, scoped/unscoped/as-of lookups) and its key layouts / skip rule are regenerated facts.",
+    level_note="Trusted: Lean kernel, factgen, badger, encoding/json. Paging of the listing and the merge of partials are covered by the correspondence, not by a theorem.",
 )
 
-for _p, _g in (("C02", "store-c02"), ("C03", "store-c03"), ("C06", "store-c06")):
-    PROPS[_p] = dict(modules=[], gens=[_g], rule="", level_text="under construction", level_note="under construction")
+PROPS["C02"] = dict(
+    modules=["Hub.Props.C02"],
+    gens=["store-c02"],
+    rule=STORE_RULE + "after every op: change feeds read with limit lists from {0},{1×8},{2,0},{3,1,0},{5,5}, since in {0,1,3,2^40}, with and without latest-only, "
+         "following the returned tokens; non-trivial = at least 3 stored versions; distinct = distinct histories",
+    trusted=STORE_TRUST,
+    assumptions=["positions handed out by the badger Sequence strictly increase per dataset (gaps allowed)"],
+    level_text="Proof: under the refinement invariant the change log read in key order is the specification's feed (changesOf_eq_feedOf, feed_eq_versions), each accepted "
+               "version adds exactly one entry and a redundant write none (feed_step + refinement); for every since, every list of limits and with or without latest-only the "
+               "pages obtained by following the tokens plus a final unlimited read are exactly the entries from since — nothing skipped or repeated (resume_exact, over any "
+               "strictly increasing positions); a token at the end returns nothing and itself (token_at_end); latest-only = the feed filtered to current versions (latest_only).",
+    level_note="Trusted: Lean kernel, factgen, badger. Interleaved readers: each page is one snapshot and the feed is append-only in position order (invariant feedInc/feedBound).",
+)
+
+PROPS["C03"] = dict(
+    modules=["Hub.Props.C03"],
+    gens=["store-c03"],
+    rule=STORE_RULE + "after every op: relationship queries for random start entities x {each predicate, *} x both directions x scopes {unscoped, one dataset, two datasets} x limits 0-3, "
+         "now and pinned to earlier instants; paged queries followed in one go (<=12 pages) and as saved continuations; spec = graph implied by the latest in-scope versions; "
+         "non-trivial = at least 3 versions and 2 queries",
+    trusted=STORE_TRUST,
+    assumptions=["per-page order of results is canonicalised (Go map iteration)"],
+    level_text="Proof (PARTIAL): for one write the reference index keeps 'newest key <= at is live' equal to 'last version <= at is live and carries the reference' for every reference "
+               "and instant, including the in-batch tombstone removal (index_step, proved on the per-(dataset, referencing entity) index model whose algorithm Hub.Store.writeRefs repeats); "
+               "outgoing and incoming scans with continuations are executable models compared with the real store and with the graph specification on generated histories. "
+               "Incoming is NOT the transpose of outgoing when a referencing entity has several (predicate, dataset) combinations towards the start entity: incoming_not_transpose, known finding D4.",
+    level_note="Trusted: Lean kernel, factgen, badger. The equality 'outgoing scan = graph' for whole histories is validated by the correspondence (model = real = spec), the theorem covers the index step.",
+)
+
+PROPS["C06"] = dict(
+    modules=["Hub.Props.C06"],
+    gens=["store-c06"],
+    rule=STORE_RULE + "after every op: lookups and relationship queries (both directions, paged and unpaged) pinned to the commit instant of a random earlier op, that instant -1 and +1; "
+         "the model and the spec evaluate the pinned query on the history, so a later write that changes a pinned answer is a mismatch; non-trivial = at least 3 versions and 2 queries",
+    trusted=STORE_TRUST + ["wall-clock monotonicity (commit times strictly increase)"],
+    assumptions=["maintenance (dataset deletion, GC, compaction) is excluded here: C07, C12"],
+    level_text="Proof: a batch or transaction committed at time t only adds version keys of time t and only adds/removes reference keys of time t (frame, frame_txn); as-of lookups and outgoing "
+               "queries depend only on keys with time <= at (visible_local, relatedOut_local), hence for every later write the pinned lookup and the pinned outgoing query — results and "
+               "continuation, any limit — are unchanged (lookup_immutable, lookup_immutable_txn, relatedOut_immutable); an instant equal to a commit time includes that commit "
+               "(lookup_includes_commit_instant). Incoming queries are validated by the correspondence only (and fall under known finding D4).",
+    level_note="Trusted: Lean kernel, factgen, badger, the clock. The outgoing scan model skips keys recorded after `at` up front (the code skips them one by one without touching its state).",
+)
 
 NOT_YET = {}
